@@ -294,6 +294,21 @@ func runSchedule(c *core.Case, class string, st *stream, cut int, term error, wi
 		var err error
 		if useAny {
 			err = dec.Decode(&v)
+		} else if i%5 == 3 {
+			// a target nothing can be decoded into: like encoding/json, the Decoder reports it
+			// and has consumed the value; at the end of the input the terminal result comes first
+			err = dec.Decode([]any{nil, struct{ A int }{}, (*int)(nil)}[(i/5)%3])
+			var iue *json.InvalidUnmarshalError
+			if errors.As(err, &iue) {
+				if i >= len(want) {
+					viol("invalid-target-before-terminal", fmt.Sprintf("Decode into an invalid target returned %v where std yields the terminal result %v (%d values)", err, wantErr, len(want)))
+					return got, false
+				}
+				raw, err = append(json.RawMessage(nil), want[i]...), nil
+			} else if err == nil {
+				viol("invalid-target-accepted", "Decode into an invalid target returned nil")
+				return got, false
+			}
 		} else {
 			err = dec.Decode(&raw)
 		}
@@ -561,6 +576,19 @@ func runParseRest(c *core.Case) {
 		} else if err2 == nil && string(rest2) != tail {
 			c.Violation("parse-remainder", "remainder-diff", fmt.Sprintf("Parse(%q, *int) remainder %q, want %q", in, rest2, tail), map[string]any{"input": string(in)})
 		}
+		// a destination nothing can be decoded into: the error says so, the remainder is the same
+		for _, tgt := range []any{nil, 7, (*int)(nil)} {
+			rest4, err4 := json.Parse(append([]byte(nil), in...), tgt, 0)
+			var iue *json.InvalidUnmarshalError
+			if !errors.As(err4, &iue) {
+				c.Violation("parse-remainder", "invalid-target-error", fmt.Sprintf("Parse(%q, %T) returned %v, want an InvalidUnmarshalError", in, tgt, err4), map[string]any{"input": string(in)})
+				break
+			}
+			if string(rest4) != tail {
+				c.Violation("parse-remainder", "remainder-diff-invalid-target", fmt.Sprintf("Parse(%q, %T) remainder %q, want %q", in, tgt, rest4, tail), map[string]any{"input": string(in)})
+				break
+			}
+		}
 		// other integer targets: the remainder does not depend on why the number does not fit
 		for _, tgt := range []any{new(uint64), new(int8), new(uint16), new(int64)} {
 			rest3, err3 := json.Parse(append([]byte(nil), in...), tgt, 0)
@@ -580,7 +608,7 @@ func runParseRest(c *core.Case) {
 func init() {
 	core.Register(&core.Monitor{
 		Prop:    "C11",
-		Rule:    "streams: a generated stream of JSON values (profiles: 1-200 small values; fixed-width top-level scalar records crossing every refill boundary up to 140 KiB; one string/number/array of about 4095..65537 bytes; values straddling those offsets; a 1 MiB string) x terminal scenarios (clean io.EOF, data returned together with io.EOF, end of input / injected reader error at value boundaries +-1 and random offsets) x chunk schedules (whole input, 1, 2, 7, 4095, 4096, 4097, 32768, random small/mixed/large, zero-length reads interleaved). For each run the values (RawMessage bytes, or `any` with UseNumber) must equal those of encoding/json's Decoder over a single bytes.Reader of the delivered bytes; the terminal result must be io.EOF exactly at a clean end, a non-EOF error inside a value, and the reader's own error when it failed; InputOffset must be monotone and lie in [end of value, start of next]; Buffered() followed by the unread part of the reader must be the unconsumed input starting in that same interval; no value after the terminal result, and two further Decode calls keep reporting the same kind of end (io.EOF stays io.EOF, an error stays an error). short: streams of <= 5 small values with the end of input / reader error at EVERY offset. parse-remainder: Parse must return exactly the bytes after the first value and its trailing whitespace (also when decoding the value fails with a type error). Distinct by stream hash.",
+		Rule:    "streams: a generated stream of JSON values (profiles: 1-200 small values; fixed-width top-level scalar records crossing every refill boundary up to 140 KiB; one string/number/array of about 4095..65537 bytes; values straddling those offsets; a 1 MiB string) x terminal scenarios (clean io.EOF, data returned together with io.EOF, end of input / injected reader error at value boundaries +-1 and random offsets) x chunk schedules (whole input, 1, 2, 7, 4095, 4096, 4097, 32768, random small/mixed/large, zero-length reads interleaved). For each run the values (RawMessage bytes, or `any` with UseNumber) must equal those of encoding/json's Decoder over a single bytes.Reader of the delivered bytes; the terminal result must be io.EOF exactly at a clean end, a non-EOF error inside a value, and the reader's own error when it failed; InputOffset must be monotone and lie in [end of value, start of next]; Buffered() followed by the unread part of the reader must be the unconsumed input starting in that same interval; no value after the terminal result, and two further Decode calls keep reporting the same kind of end (io.EOF stays io.EOF, an error stays an error). short: streams of <= 5 small values with the end of input / reader error at EVERY offset. every fifth Decode of the RawMessage runs uses an invalid target (nil, non-pointer, nil pointer): an InvalidUnmarshalError and the value consumed, the terminal result at the end. parse-remainder: Parse must return exactly the bytes after the first value and its trailing whitespace (also when decoding the value fails with a type error). Distinct by stream hash.",
 		Trusted: []string{"encoding/json.Decoder over bytes.Reader (go1.23.5) as the single-read reference", "the generator's own record of where each value starts and ends"},
 		Subs: []core.Sub{
 			{Name: "streams", N: core.Const(800, 8000), Run: runStreams},
